@@ -6,6 +6,7 @@ from .kernel import Kernel, SimIn, SimOut, sane_attrs
 from .term import TermModel
 from .world import World
 
+import gc as _gc
 import termios as _termios
 
 
@@ -56,4 +57,9 @@ def finish(s):
     try:
         s.world.shutdown()
     finally:
-        seams.unbind()
+        try:
+            # finalizers of what the run created (weakref.finalize, __del__) belong to this run's world: they must
+            # not fire in the middle of a later run and close its descriptors
+            _gc.collect()
+        finally:
+            seams.unbind()
